@@ -531,7 +531,7 @@ func c18check(c *Ctx, d *c18dag, res *c18result, failTask int, rp map[string]any
 
 func init() {
 	register("C18", "exploration", func(c *Ctx) {
-		c.Rule = "PRNG task DAGs (2-10 static tasks as struct fields and as list elements, chains/diamonds/fan-in, dependencies through direct references, intermediate fields outside the root, interpolations, nested result fields, computed intermediate fields, whole-task references; optional dynamic tasks generated by a comprehension over a producer's result) × schedules (one gate at a time in PRNG order, several gates at once so completions race, free running with PRNG sleeps, reverse-order and forward-order adversaries), with and without one injected failure or ErrAbort, and cyclic variants. Each task fills a unique token derived from the inputs it saw; instrumented Runners log start/end with a global sequence number; offline checker: start after end of every dependency, inputs = producers' tokens, at most one start, all tasks ran, no dependant of a failed task started, cycle reported not hung, final value = initial ∧ results; -race. Non-trivial = distinct DAG source with ≥1 dependency; distinct completion orders are counted."
+		c.Rule = "PRNG task DAGs (2-10 static tasks as struct fields and as list elements, chains/diamonds/fan-in, dependencies through direct references, intermediate fields outside the root, interpolations, nested result fields, computed intermediate fields, whole-task references; optional dynamic tasks generated by a comprehension over a producer's result) × schedules (one gate at a time in PRNG order, several gates at once so completions race, free running with PRNG sleeps, reverse-order and forward-order adversaries), with and without one injected failure or ErrAbort, cyclic variants, and workflows whose cycle only closes at run time (a conditional dependency between two existing tasks that appears once a third task has filled its result). Each task fills a unique token derived from the inputs it saw; instrumented Runners log start/end with a global sequence number; offline checker: start after end of every dependency, inputs = producers' tokens, at most one start, all tasks ran, no dependant of a failed task started, cycle reported not hung, final value = initial ∧ results; -race. Non-trivial = distinct DAG source with ≥1 dependency; distinct completion orders are counted."
 		c.Assume = []string{"a hang is decided by a 60s watchdog (a step takes milliseconds) and re-confirmed once with 120s before it is reported", "dependency ground truth comes from the generator's own reference list"}
 		if c.Replay != nil {
 			src, _ := c.Replay["source"].(string)
@@ -610,7 +610,74 @@ func init() {
 		c.Set("dynamic_tasks", dynSeen.Load())
 		c.Set("list_element_tasks", listSeen.Load())
 		c.Set("failures_injected", failsInjected.Load())
+		// cycles that only close while the workflow runs: a dependency between two tasks that exist from the start
+		// appears once a third task has produced its result (no task is added in that step)
+		nDyn := c.N(6, 60)
+		var dynCyc atomic.Int64
+		c.Par(nDyn, func(k int) {
+			r := c.RNG(fmt.Sprintf("dyncycle-%d", k))
+			d := c18dynCycle(r)
+			dynCyc.Add(1)
+			c.Nontrivial(mon.Hash(d.src))
+			mode := []int{2, 0, 1}[k%3]
+			res := c18run(r, d, mode, -1, false, 60*time.Second)
+			c.Eval(1)
+			if res.hung {
+				res = c18run(r, d, mode, -1, false, 120*time.Second)
+			}
+			c18check(c, d, res, -1, map[string]any{"source": d.src, "mode": mode}, "C18|dyncycle|"+mon.Hash(d.src))
+			if k == 0 {
+				c.Sample(map[string]any{"dynamic_cycle_workflow": d.src})
+			}
+		})
+		c.Set("dynamic_cycle_workflows", dynCyc.Load())
 		c.Set("cyclic_workflows", cyc.Load())
 		c.CheckRaceLogs(mon.RaceLogPrefix())
 	})
+}
+
+// c18dynCycle: a -> (b gains a dependency on the end of a chain that starts at b) once a has run.
+func c18dynCycle(r *rand.Rand) *c18dag {
+	d := &c18dag{deps: map[int][]int{}, cyclic: true}
+	chain := 1 + r.IntN(3) // c0 <- c1 <- ... each depends on the previous, c0 depends on b
+	names := []string{"a", "b"}
+	for i := 0; i < chain; i++ {
+		names = append(names, fmt.Sprintf("c%d", i))
+	}
+	extra := r.IntN(3) // unrelated tasks
+	for i := 0; i < extra; i++ {
+		names = append(names, fmt.Sprintf("u%d", i))
+	}
+	for i, n := range names {
+		d.tasks = append(d.tasks, &c18task{idx: i, name: n, dynOf: -1})
+	}
+	var sb strings.Builder
+	sb.WriteString("root: {\n")
+	task := func(name, in, more string) {
+		fmt.Fprintf(&sb, "\t%s: {\n\t\t$id: \"t\"\n\t\tname: %q\n\t\tin: [%s]\n\t\tout: string\n\t\tres: val: string\n%s\t}\n", name, name, in, more)
+	}
+	task("a", "", "")
+	last := fmt.Sprintf("c%d", chain-1)
+	cond := []string{
+		fmt.Sprintf("\t\tif root.a.out == \"a<>\" {\n\t\t\tlate: root.%s.out\n\t\t}\n", last),
+		fmt.Sprintf("\t\tif root.a.res.val != \"\" {\n\t\t\tlate: root.%s.res.val\n\t\t}\n", last),
+		fmt.Sprintf("\t\tif len(root.a.out) > 0 {\n\t\t\tlate: {x: root.%s.out}\n\t\t}\n", last),
+	}[r.IntN(3)]
+	task("b", "", cond)
+	prev := "b"
+	for i := 0; i < chain; i++ {
+		n := fmt.Sprintf("c%d", i)
+		task(n, "root."+prev+".out", "")
+		prev = n
+	}
+	for i := 0; i < extra; i++ {
+		in := ""
+		if i > 0 && r.IntN(2) == 0 {
+			in = fmt.Sprintf("root.u%d.out", i-1)
+		}
+		task(fmt.Sprintf("u%d", i), in, "")
+	}
+	sb.WriteString("}\n")
+	d.src = sb.String()
+	return d
 }
